@@ -13,7 +13,17 @@ import (
 
 type Warnings struct {
 	all []string
+
+	// anonymous function calls made during this evaluation: currently nested and in total
+	callDepth int
+	callCount int
 }
+
+const (
+	// limits on calls of anonymous functions in one evaluation - these can call themselves via their arguments
+	maxAnonCallDepth = 100
+	maxAnonCallCount = 100_000
+)
 
 func (w *Warnings) add(m string) {
 	if !slices.Contains(w.all, m) {
@@ -173,6 +183,13 @@ type AnonFunction struct {
 func (x *AnonFunction) Evaluate(env envs.Environment, scope *Scope, warnings *Warnings) types.XValue {
 	// create an XFunction which wraps our body expression
 	fn := func(env envs.Environment, args ...types.XValue) types.XValue {
+		if warnings.callDepth >= maxAnonCallDepth || warnings.callCount >= maxAnonCallCount {
+			return types.NewXErrorf("too many function calls")
+		}
+		warnings.callDepth++
+		warnings.callCount++
+		defer func() { warnings.callDepth-- }()
+
 		// create new context that includes the args
 		argsMap := make(map[string]types.XValue, len(x.Args))
 		for i := range x.Args {
